@@ -32,6 +32,7 @@ func TestRepeat(t *testing.T) {
 		t.Fatal(err)
 	}
 	wr.Quiet()
+	installHook()
 	for di := range w.Input.Docs {
 		seen := map[string]int{}
 		var firstO *outcome
@@ -55,6 +56,7 @@ func TestPanics(t *testing.T) {
 		t.Skip()
 	}
 	wr.Quiet()
+	installHook()
 	n, _ := strconv.Atoi(os.Getenv("C15_N"))
 	sites := map[string]int{}
 	kinds := map[string]int{}
@@ -102,6 +104,7 @@ func TestStack(t *testing.T) {
 	var w struct{ Input input }
 	json.Unmarshal(b, &w)
 	wr.Quiet()
+	installHook()
 	d := &w.Input.Docs[0]
 	fmt.Println(d.HTML)
 	_, _ = wr.Render(wr.Opts{HTML: d.HTML, UserCSS: d.UserCSS, Hints: d.Hints, Engine: d.Engine, Files: d.Files})
@@ -119,6 +122,7 @@ func TestBisect(t *testing.T) {
 	var w struct{ Input input }
 	json.Unmarshal(b, &w)
 	wr.Quiet()
+	installHook()
 	d := w.Input.Docs[0]
 	i := strings.Index(d.HTML, "<body>")
 	j := strings.Index(d.HTML, "</body>")
@@ -173,6 +177,7 @@ func TestHyph(t *testing.T) {
 		t.Skip()
 	}
 	wr.Quiet()
+	installHook()
 	tot, hy, hyd := 0, 0, 0
 	for i := 0; i < 30; i++ {
 		in := genCase(1, i, "quick")
@@ -220,6 +225,7 @@ func TestColdHy(t *testing.T) {
 		t.Skip()
 	}
 	wr.Quiet()
+	installHook()
 	var docs []cdoc
 	for i := 0; len(docs) < 4; i++ {
 		in := genCase(1, i, "quick")
@@ -276,4 +282,24 @@ func renderRaw(d *cdoc) {
 	doc := document.Render(html, sheets, d.Hints, fonts)
 	r := rec.New()
 	doc.Write(r, 1, nil)
+}
+
+func TestTooLong(t *testing.T) {
+	f := os.Getenv("C15_TOOLONG")
+	if f == "" {
+		t.Skip()
+	}
+	b, _ := os.ReadFile(f)
+	var w struct{ Input input }
+	json.Unmarshal(b, &w)
+	wr.Quiet()
+	installHook()
+	for di := range w.Input.Docs {
+		o, _ := render(&w.Input.Docs[di], renderOpts{hook: true})
+		fmt.Println(di, o.Kind, o.Pages, len(o.Lines))
+		if o.Kind == "toolong" {
+			fmt.Println(w.Input.Docs[di].HTML)
+			fmt.Println(w.Input.Docs[di].UserCSS)
+		}
+	}
 }
